@@ -16,6 +16,8 @@ TYPES = {
     "CH4": dict(res=[("S", ["a"]), ("B", ["b"]), ("S", ["a"]), ("B", ["b"])], edges=[(0, 1), (1, 2), (2, 3)]),
     "CH5": dict(res=[("S", ["a"])] * 5, edges=[(0, 1), (1, 2), (2, 3), (3, 4)]),
     "CH6": dict(res=[("S", ["a"])] * 6, edges=[(i, i + 1) for i in range(5)]),
+    # longer than 10 residues: BuildSystem consolidates the search trees after such a molecule
+    "CH11": dict(res=[("S", ["a"])] * 11, edges=[(i, i + 1) for i in range(10)]),
     "BR4": dict(res=[("S", ["a"]), ("S", ["a"]), ("S", ["a"]), ("B", ["b"])], edges=[(0, 1), (1, 2), (1, 3)]),
     "BR5": dict(res=[("S", ["a"])] * 5, edges=[(0, 1), (1, 2), (1, 3), (3, 4)]),
     "RING3": dict(res=[("S", ["a"])] * 3, edges=[(0, 1), (1, 2), (0, 2)]),
